@@ -283,4 +283,33 @@ theorem lost_reoffered_done (s : SendSpec) :
     lostCount s.colour s.win = 0 ↔ ∀ x, x < s.win → s.colour x ≠ .lost :=
   lostCount_eq_zero s.colour s.win
 
+/-- **Bytes reported lost are offered again** (headline form, all answers of `pick_up` at once): while a `Lost` byte
+`x` is inside the window, a range answer starts at or below `x`, is not fresh, consists of `Lost` bytes only (so no
+fresh byte overtakes it) and strictly decreases the number of `Lost` bytes in the window; and the buffer may stay
+silent only if the caller's predicate refuses the least `Lost` offset. -/
+theorem lost_reoffered (cap : Nat) (tr : List (SendOp × SendObs)) (s : SendSpec)
+    (h : Trace.Ok (SendSpec.init cap) tr s) (x : Nat) (hx : x < s.win) (hl : s.colour x = .lost)
+    (pred : Nat → Option Nat) (flow : Nat) (o : SendObs) (s' : SendSpec)
+    (hs : stepOk s (.pick pred flow) o s') :
+    match o with
+    | .range a b fresh =>
+      a ≤ x ∧ fresh = false ∧ (∀ y, a ≤ y → y < b → s.colour y = .lost) ∧
+      lostCount s'.colour s.win + (b - a) = lostCount s.colour s.win ∧ 0 < b - a
+    | .none => pred (s.firstCand flow) = none ∧ s.firstCand flow ≤ x ∧ s' = s
+    | .unit => False := by
+  cases o with
+  | range a b fresh =>
+    obtain ⟨h1, h2, h3⟩ := lost_reoffered_first cap tr s h x hx hl pred flow a b fresh s' hs
+    subst h2
+    obtain ⟨h4, _, h5⟩ := lost_reoffered_terminates s pred flow a b s' hs
+    exact ⟨h1, rfl, h3, h4, h5⟩
+  | none =>
+    obtain ⟨h1, h2, _, _, h5⟩ := lost_reoffered_progress cap tr s h x hx hl pred flow s' hs
+    exact ⟨h1, h2, h5⟩
+  | unit => exact hs.2.1
+
+example : (0 : Nat) ≤ 1 ∧ false = false ∧ (∀ y, 0 ≤ y → y < 2 → exS5.colour y = .lost) ∧
+    lostCount exS6.colour exS5.win + (2 - 0) = lostCount exS5.colour exS5.win ∧ 0 < 2 - 0 :=
+  lost_reoffered 10 exTr5 exS5 exTr5_ok 1 (by decide) (by decide) exPred 100 (.range 0 2 false) exS6 exStep6
+
 end GmQuic.SendSpec
